@@ -1258,17 +1258,6 @@ class _Named(_Protocol):
     name: str
 
 
-class _Perm(_enum.Flag):
-    R = 1
-    W = 2
-    X = 4
-
-
-class _Level(_enum.IntEnum):
-    LOW = 1
-    HIGH = 5
-
-
 class _Slotted:
     __slots__ = ("a", "b")
 
@@ -1336,6 +1325,16 @@ def case_r8_typeddict():
 
 
 def case_r8_flag_intenum():
+    # (declined: a class statement inside a function is outside the fragment; at module level a Flag / IntEnum class makes
+    # the evaluator decline the whole module, see ensure_built)
+    class _Perm(_enum.Flag):
+        R = 1
+        W = 2
+        X = 4
+
+    class _Level(_enum.IntEnum):
+        LOW = 1
+        HIGH = 5
     p = _Perm.R | _Perm.W
     return [_Perm.R in p, _Perm.X in p, p.value, _Level.HIGH > 3, int(_Level.LOW), _Level(5).name, sorted([_Level.HIGH, _Level.LOW])[0].name]
 
@@ -1521,3 +1520,9 @@ def case_r8_dataclass_slots():
     p = Pt(1)
     p.y = 4
     return [p.x, p.y, p == Pt(1, 4)]
+
+
+def case_r8_dunder_methods_of_builtins():
+    fmt = "[%s to %s]".__mod__
+    return [fmt((1, 2)), "ab".__add__("c"), [1].__add__([2]), "ab".__mul__(2), "b".__lt__("c"), "abc".__getitem__(1),
+            list(map("<%s>".__mod__, ["x", "y"])), "x".__ne__("x")]
